@@ -78,6 +78,34 @@ func TestVerifSlotRaft(t *testing.T) {
 			break
 		}
 	}
+	// aimed schedule 2: ONE Ready whose committed entries are normal..., conf change, normal... (both
+	// state-machine flavours of applyCommittedEntries: ApplyBatch and one-by-one Apply)
+	mixedReached := 0
+	mixed := mixedBatchPlan(rng, env.Pick(6, 16))
+	if os.Getenv("VERIF_SLOTRAFT_PARTS") == "random" {
+		mixed = nil
+	}
+	for i, shape := range mixed {
+		dir, derr := os.MkdirTemp(base, "mixed-")
+		if derr != nil {
+			rep.Infra("tempdir: %v", derr)
+			break
+		}
+		reached, err := scenarioMixedCommittedBatch(rng, rep, tr, dir, shape)
+		_ = os.RemoveAll(dir)
+		_ = rep.Finish(rec)
+		if err != nil {
+			rep.Infra("mixed-batch scenario %d (%+v): %v", i, shape, err)
+			break
+		}
+		if reached {
+			mixedReached++
+		}
+	}
+	if len(mixed) > 0 && mixedReached == 0 {
+		rep.Infra("vacuous run: none of the %d mixed-committed-batch schedules reached its shape", len(mixed))
+	}
+	rep.AddExtra("mixed_batch_schedules_reached", mixedReached)
 	for i := 0; i < traces; i++ {
 		dir, derr := os.MkdirTemp(base, "cluster-")
 		if derr != nil {
@@ -234,11 +262,13 @@ func randomTrace(rng *rand.Rand, rep *kit.Report, tr *tracer, dir string, idx, s
 	case 1:
 	case 2:
 		cfg.durable = false
+		cfg.single = rng.Intn(2) == 0 // plain multiraft.StateMachine without ApplyBatch
 		if rng.Intn(2) == 0 {
 			cfg.trigger, manualCompaction = 1<<40, false
 		}
 	default:
 		cfg.durable = rng.Intn(4) != 0
+		cfg.single = rng.Intn(3) == 0
 		if rng.Intn(3) == 0 {
 			cfg.trigger = 1 << 40
 		}
@@ -264,6 +294,9 @@ func randomTrace(rng *rand.Rand, rep *kit.Report, tr *tracer, dir string, idx, s
 	rep.AddExtra("traces_"+map[bool]string{true: "durable_sm", false: "plain_sm"}[cfg.durable], 1)
 	if len(cfg.slots) > 1 {
 		rep.AddExtra("traces_two_slots", 1)
+	}
+	if cfg.single {
+		rep.AddExtra("traces_sm_without_applybatch", 1)
 	}
 
 	var down *node
@@ -297,8 +330,7 @@ func randomTrace(rng *rand.Rand, rep *kit.Report, tr *tracer, dir string, idx, s
 		}
 		burst(c.nodes[l], slot, k)
 	}
-	toggleLearner := func(slot uint64) {
-		l := c.leaderOf(slot)
+	toggleLearnerOn := func(l uint64, slot uint64) {
 		if l == 0 {
 			return
 		}
@@ -315,6 +347,7 @@ func randomTrace(rng *rand.Rand, rep *kit.Report, tr *tracer, dir string, idx, s
 			rep.Cover("ChangeConfig")
 		}
 	}
+	toggleLearner := func(slot uint64) { toggleLearnerOn(c.leaderOf(slot), slot) }
 	settle := func(d time.Duration) bool {
 		return waitUntil(d, func() bool {
 			for _, s := range cfg.slots {
@@ -368,7 +401,55 @@ func randomTrace(rng *rand.Rand, rep *kit.Report, tr *tracer, dir string, idx, s
 		if rng.Intn(4) != 0 {
 			waitLeader(slot, 10*et) // mostly work against a cluster that has a leader
 		}
-		switch r := rng.Intn(100); {
+		switch r := rng.Intn(112); {
+		case r >= 100: // proposals, a conf change, proposals queued on the leader while its worker is parked in a Save
+			l := c.leaderOf(slot)
+			if l == 0 || c.nodes[l] == down || c.nodes[l].isDead() {
+				break
+			}
+			ld := c.nodes[l]
+			ld.hold("save")
+			burst(ld, slot, 1)
+			if !waitUntil(20*et+200*time.Millisecond, ld.isHolding) {
+				ld.unhold()
+				break
+			}
+			// optionally the acknowledgements of the followers are lost for a while, so that the leader
+			// learns of the whole span at once (one Ready with normal, conf-change, normal committed entries)
+			oneWay := rng.Intn(3) != 0
+			if oneWay {
+				for _, id := range c.ids {
+					if id != l {
+						c.net.setBlockedOneWay(id, l, true)
+					}
+				}
+			}
+			burst(ld, slot, rng.Intn(3))
+			toggleLearnerOn(l, slot)
+			burst(ld, slot, rng.Intn(4))
+			parkedAt := ld.lastSavedIndex(slot)
+			ld.unhold()
+			rep.Cover("MixedBurstBehindHeldSave")
+			if oneWay {
+				// until the followers hold what the leader saved after the parked Save (pacing only)
+				waitUntil(3*et, func() bool {
+					li := ld.lastSavedIndex(slot)
+					if li <= parkedAt {
+						return false
+					}
+					for _, id := range c.ids {
+						if n := c.nodes[id]; n != ld && n != down && !n.isDead() && n.lastSavedIndex(slot) < li {
+							return false
+						}
+					}
+					return true
+				})
+				for _, id := range c.ids {
+					if id != l {
+						c.net.setBlockedOneWay(id, l, false)
+					}
+				}
+			}
 		case r < 34: // plain workload
 			proposeSomewhere(slot, 1+rng.Intn(4))
 			if rng.Intn(6) == 0 {
@@ -586,31 +667,40 @@ func randomTrace(rng *rand.Rand, rep *kit.Report, tr *tracer, dir string, idx, s
 
 	// direct cross-check of the final state machines (the trace validation checks every step; this
 	// only makes a divergence readable at once)
-	for _, s := range cfg.slots {
+	checkStateMachines(c, rep, map[string]any{"trace": idx})
+	return nil
+}
+
+// checkStateMachines compares the replicas' final state machines directly: the same (term, command) at
+// every index on every replica, indexes strictly increasing on each (applied once, in order).
+func checkStateMachines(c *cluster, rep *kit.Report, ctx map[string]any) bool {
+	for _, s := range c.cfg.slots {
 		logs := map[uint64][]cmdRec{}
 		for _, id := range c.ids {
 			logs[id] = c.nodes[id].smCopy(s)
+		}
+		replay := map[string]any{"slot": s, "state_machines": logs}
+		for k, v := range ctx {
+			replay[k] = v
 		}
 		at := map[uint64]cmdRec{}
 		for _, id := range c.ids {
 			prev := uint64(0)
 			for _, e := range logs[id] {
 				if o, ok := at[e.I]; ok && o != e {
-					rep.Violate("C12", "final", fmt.Sprintf("slot %d index %d: node %d applied (term %d, cmd %d) but another replica applied (term %d, cmd %d)", s, e.I, id, e.T, e.V, o.T, o.V),
-						map[string]any{"trace": idx, "slot": s, "state_machines": logs})
-					return nil
+					rep.Violate("C12", "final", fmt.Sprintf("slot %d index %d: node %d applied (term %d, cmd %d) but another replica applied (term %d, cmd %d)", s, e.I, id, e.T, e.V, o.T, o.V), replay)
+					return false
 				}
 				at[e.I] = e
 				if e.I <= prev {
-					rep.Violate("C12", "final", fmt.Sprintf("slot %d node %d: applied index %d after index %d", s, id, e.I, prev),
-						map[string]any{"trace": idx, "slot": s, "state_machines": logs})
-					return nil
+					rep.Violate("C12", "final", fmt.Sprintf("slot %d node %d: applied index %d after index %d", s, id, e.I, prev), replay)
+					return false
 				}
 				prev = e.I
 			}
 		}
 	}
-	return nil
+	return true
 }
 
 func (p *proposals) setPhase(s string) {
@@ -733,6 +823,202 @@ func scenarioQueuedProposalAcrossStepDown(rng *rand.Rand, rep *kit.Report, tr *t
 	}
 	waitUntil(3*time.Second, func() bool { return p.openCount() == 0 })
 	return nil
+}
+
+// mixedShape is one aimed schedule of scenarioMixedCommittedBatch.
+type mixedShape struct {
+	durable bool // state machine with DurableAppliedIndex
+	single  bool // state machine WITHOUT ApplyBatch (every command through StateMachine.Apply)
+	gate    bool // the commands are queued while the leader's worker is parked in Storage.Save of the first one
+	pre     int  // commands before the conf change
+	post    int  // commands after the conf change
+	remove  bool // the conf change removes a learner added before (else it adds one)
+}
+
+// mixedBatchPlan: the two flavours of applyCommittedEntries (ApplyBatch / one-by-one) with the span
+// lengths that select its two paths (a span of one entry goes one-by-one also with ApplyBatch), gated
+// and not; the rest of the budget is drawn at random.
+func mixedBatchPlan(rng *rand.Rand, n int) []mixedShape {
+	plan := []mixedShape{
+		{durable: true, single: false, gate: false, pre: 1, post: 1},
+		{durable: true, single: false, gate: true, pre: 1, post: 2},
+		{durable: false, single: true, gate: false, pre: 2, post: 1},
+		{durable: false, single: true, gate: true, pre: 1 + rng.Intn(2), post: rng.Intn(3)},
+		{durable: false, single: false, gate: rng.Intn(2) == 0, pre: 1, post: rng.Intn(3), remove: true},
+		{durable: true, single: true, gate: rng.Intn(2) == 0, pre: 1 + rng.Intn(3), post: 1 + rng.Intn(2)},
+	}
+	for len(plan) < n {
+		plan = append(plan, mixedShape{durable: rng.Intn(2) == 0, single: rng.Intn(2) == 0, gate: rng.Intn(2) == 0,
+			pre: 1 + rng.Intn(3), post: rng.Intn(4), remove: rng.Intn(3) == 0})
+	}
+	return plan[:n]
+}
+
+// scenarioMixedCommittedBatch: every replica receives, in ONE Ready, committed entries of the shape
+// command x pre, conf change, command x post.  applyCommittedEntries flushes the span of commands
+// collected so far before it applies the conf change and flushes again at the end; each command must
+// reach the state machine exactly once and in index order whichever path (ApplyBatch / one-by-one) a
+// span takes.
+//
+// How the shape is forced: the acknowledgements of both followers are dropped (one direction of the
+// links only - they keep receiving appends and heartbeats, nobody campaigns) while the leader admits
+// and replicates the commands and the conf change, so nothing of the span commits; once both
+// followers have saved the whole span the links are healed: the next append response moves the
+// leader's commit index over the whole span at once, and its next message does the same on the
+// followers.  With gate=true the leader's worker is additionally parked inside Storage.Save of the
+// first command while the rest is queued (one control batch, one Save, as in pkg/slot/multiraft's
+// own control loop under load).  Judged by TLC on the recorded trace (Trace.tla: C12_InOrderOnce ...)
+// and by the direct comparison of the final state machines.  reached=false: the cluster did not get
+// into the shape (leader change, timeouts under load) - not an error.
+func scenarioMixedCommittedBatch(rng *rand.Rand, rep *kit.Report, tr *tracer, dir string, sh mixedShape) (reached bool, err error) {
+	cfg := clusterCfg{durable: sh.durable, single: sh.single, slots: []uint64{11}, checkQuorum: false, preVote: false,
+		maxApplying: []int{0, 1}[rng.Intn(2)], trigger: 1 << 40, workers: 1, tick: 4 * time.Millisecond, electionTick: 25}
+	tr.begin(cfg.slots, map[string]any{"durable": cfg.durable})
+	defer tr.end()
+	c, err := newCluster(dir, cfg, tr, rep, rng)
+	if err != nil {
+		return false, err
+	}
+	ctx, cancel := context.WithCancel(context.Background())
+	p := &proposals{c: c, ctx: ctx, cancel: cancel, acked: map[uint64]int{}, maxIdx: map[uint64]uint64{}}
+	p.setPhase("scenario-mixed")
+	var schedule []string
+	note := func(format string, a ...any) { schedule = append(schedule, fmt.Sprintf(format, a...)) }
+	defer func() {
+		c.net.healAll()
+		for _, id := range c.ids {
+			c.nodes[id].unhold()
+		}
+		c.close()
+		cancel()
+		p.wg.Wait()
+		checkAcks(c, p, rep, "MixedCommittedBatch", schedule)
+		checkStateMachines(c, rep, map[string]any{"scenario": "MixedCommittedBatch", "shape": fmt.Sprintf("%+v", sh), "schedule": schedule})
+	}()
+	const slot = 11
+	var l uint64
+	if !waitUntil(20*time.Second, func() bool { l = c.leaderOf(slot); return l != 0 }) {
+		return false, fmt.Errorf("scenario: no leader")
+	}
+	ld := c.nodes[l]
+	allCaughtUp := func() bool {
+		li := ld.lastSavedIndex(slot)
+		for _, id := range c.ids {
+			n := c.nodes[id]
+			st, ok := c.status(n, slot)
+			if !ok || st.CommitIndex < li || st.AppliedIndex < st.CommitIndex || n.lastSavedIndex(slot) < li {
+				return false
+			}
+		}
+		return true
+	}
+	changeConfig := func(change multiraft.ConfigChange) (multiraft.Future, bool) {
+		rt := ld.runtime()
+		if rt == nil {
+			return nil, false
+		}
+		fut, err := rt.ChangeConfig(context.Background(), multiraft.SlotID(slot), change)
+		if err != nil {
+			return nil, false
+		}
+		rep.Cover("ChangeConfig")
+		return fut, true
+	}
+	note("leader n%d commits two commands; all replicas catch up", l)
+	p.propose(ld, slot)
+	p.propose(ld, slot)
+	if !waitUntil(10*time.Second, func() bool { return p.ackedCount(slot) >= 2 && allCaughtUp() }) {
+		return false, nil
+	}
+	change := multiraft.ConfigChange{Type: multiraft.AddLearner, NodeID: 4}
+	if sh.remove {
+		note("learner 4 is added (own Ready) so that the conf change of the span removes it")
+		fut, ok := changeConfig(change)
+		if !ok {
+			return false, nil
+		}
+		wctx, wcancel := context.WithTimeout(ctx, 10*time.Second)
+		_, werr := fut.Wait(wctx)
+		wcancel()
+		if werr != nil || !waitUntil(10*time.Second, allCaughtUp) {
+			return false, nil
+		}
+		change.Type = multiraft.RemoveVoter
+	}
+	start := ld.lastSavedIndex(slot)
+	total := uint64(sh.pre + 1 + sh.post)
+	note("drop the followers' messages to n%d (one direction)", l)
+	for _, id := range c.ids {
+		if id != l {
+			c.net.setBlockedOneWay(id, l, true)
+		}
+	}
+	before := p.ackedCount(slot)
+	queued := 0
+	pre := sh.pre
+	if sh.gate {
+		note("park n%d's slot worker in Storage.Save of the first command", l)
+		ld.hold("save")
+		if p.propose(ld, slot) {
+			queued++
+		}
+		pre--
+		if !waitUntil(10*time.Second, ld.isHolding) {
+			return false, nil
+		}
+	}
+	note("on n%d: Propose x%d, ChangeConfig(%v node 4), Propose x%d", l, pre, change.Type, sh.post)
+	for k := 0; k < pre; k++ {
+		if p.propose(ld, slot) {
+			queued++
+		}
+	}
+	ccFut, ok := changeConfig(change)
+	if !ok {
+		return false, nil
+	}
+	for k := 0; k < sh.post; k++ {
+		if p.propose(ld, slot) {
+			queued++
+		}
+	}
+	if sh.gate {
+		note("release the Save")
+		ld.unhold()
+	}
+	if queued != sh.pre+sh.post {
+		return false, nil
+	}
+	// every replica has saved the whole span, nothing of it is committed
+	if !waitUntil(10*time.Second, func() bool {
+		for _, id := range c.ids {
+			if c.nodes[id].lastSavedIndex(slot) < start+total {
+				return false
+			}
+		}
+		return true
+	}) {
+		return false, nil
+	}
+	st, ok := c.status(ld, slot)
+	uncommitted := ok && st.Role == multiraft.RoleLeader && st.CommitIndex <= start && ld.lastSavedIndex(slot) == start+total
+	note("all replicas saved indexes %d..%d, commit index of n%d is %d; heal", start+1, start+total, l, st.CommitIndex)
+	c.net.healAll()
+	wctx, wcancel := context.WithTimeout(ctx, 10*time.Second)
+	res, werr := ccFut.Wait(wctx)
+	wcancel()
+	resolved := waitUntil(10*time.Second, func() bool { return p.ackedCount(slot) >= before+queued })
+	if uncommitted && werr == nil && resolved && res.Index == start+uint64(sh.pre)+1 {
+		reached = true
+		rep.Cover("Scenario:MixedCommittedBatch")
+		rep.Cover(fmt.Sprintf("Scenario:MixedCommittedBatch:batch=%v,pre=%d,post=%d", !sh.single, min(sh.pre, 2), min(sh.post, 2)))
+	}
+	// some more traffic, then let everything drain
+	note("two more commands; drain")
+	p.propose(ld, slot)
+	p.propose(ld, slot)
+	waitUntil(5*time.Second, func() bool { return p.openCount() == 0 && allCaughtUp() })
+	return reached, nil
 }
 
 // checkAcks is the order-free oracle of the aimed schedules: a future resolved with (index, term) names
